@@ -336,6 +336,10 @@ def run_lines(exe, lines, timeout=3600, env=None, args=()):
 # --------------------------------------------------------------------------
 # check context
 
+class Abort(Exception):
+    """raised by a check to stop early once what it found is reported (e.g. the implementation hangs on everything)"""
+
+
 class Ctx:
     def __init__(self, prop, tier, seed, replay=None):
         self.prop = prop
